@@ -190,6 +190,71 @@ def c12md5_run(tid, wcfg, cfgline, seed):
     return rec.lines
 
 
+def c02r_run(tid, wcfg, cfgline, seed):
+    """C02: a long run of failures of one kind (or mixed) from boot - refused attempts, TCP time-outs, resets right after
+    the handshake, OPENs that are refused - and then a peer that behaves (R.coop_continue): nothing in the past, however
+    often it happened, may delay or prevent the session."""
+    rnd = random.Random(seed)
+    w = World(wcfg)
+    rec = R.Recorder(w, tid, cfgline)
+    rec.step({'k': 'boot', 'c': 0}, 0)
+    n = rnd.choice([0, 1, 2, 3, 4, 5, 6, 7, 8, 9, 11, 12, 13, 16, 20])
+    kind = rnd.choice(['refused', 'refused', 'timeout', 'reset', 'badopen', 'mixed'])
+    done = guard = 0
+    while done < n and guard < 4000:
+        guard += 1
+        conns = [(i, W.connectors[i - 1]) for i in w.alive]
+        pending = [i for i, k in conns if k.state == 'connecting']
+        live = [i for i, k in conns if k.state == 'connected']
+        if live:
+            rec.step({'k': 'connLost', 'c': live[0]}, live[0])
+            continue
+        if pending:
+            c = pending[0]
+            kd = kind if kind != 'mixed' else rnd.choice(['refused', 'timeout', 'reset', 'badopen'])
+            if kd == 'refused':
+                rec.step({'k': 'connRefused', 'c': c}, c)
+                done += 1
+            elif kd == 'timeout':
+                if W.connectors[c - 1].deadline <= W.now + 1e-6:
+                    rec.step({'k': 'tcpTimeout', 'c': c}, c)
+                    done += 1
+                elif w.due_calls():
+                    rec.step({'k': 'firedue', 'c': 0}, 0)
+                else:
+                    rec.step({'k': 'tick', 'c': 0}, 0)
+            elif kd == 'reset':
+                rec.step({'k': 'connOk', 'c': c}, c)
+                rec.step({'k': 'connLost', 'c': c}, c)
+                done += 1
+            else:
+                o = rec.step({'k': 'connOk', 'c': c}, c)
+                if o['st'] == 'OPENSENT':
+                    rec.step({'k': 'msg', 'c': c, 'm': 'OPENBADAS'}, c)
+                done += 1
+            continue
+        if w.due_calls():
+            rec.step({'k': 'firedue', 'c': 0}, 0)
+        elif w.pending_calls():
+            rec.step({'k': 'tick', 'c': 0}, 0)
+        else:
+            break
+    if w.p.fsm.allow_automatic_start and W.connectors:
+        R.coop_continue(w, rec, cfgline.get('idle', 2), cfgline.get('hold', 60))
+    return rec.lines
+
+
+def c02r_jobs(tier, seed):
+    jobs = []
+    n = 0
+    for wcfg in (dict(tick=10.0, crt=20, idle=20, hold=90, las=65001, ras=65002), dict(tick=10.0, crt=40, idle=20, hold=90, las=65001, ras=65002),
+                 dict(tick=10.0, crt=30, idle=10, hold=90, las=65001, ras=65002), dict(tick=10.0, crt=20, idle=0, hold=30, las=65001, ras=65002)):
+        for _ in range(40 if tier == 'quick' else 1200):
+            jobs.append(('c02r', wcfg, seed * 1000003 + n))
+            n += 1
+    return jobs
+
+
 def c12md5_jobs(tier, seed):
     jobs = []
     n = 0
@@ -198,8 +263,9 @@ def c12md5_jobs(tier, seed):
               dict(handler_fail={'open_received': [1]}), dict(handler_fail={'keepalive_received': [1, 2]}), dict(handler_fail={'on_connection_lost': [1]}),
               dict(handler_fail={'on_established': [1]}), dict(nodelay_fail=[1]), dict(nodelay_fail=[2]), dict(nodelay_fail='all')]
     for f in faults:
-        for _ in range(12 if tier == 'quick' else 300):
-            wcfg = dict(tick=10.0, crt=20, idle=20, hold=90, las=65001, ras=65002, **f)
+        for j in range(12 if tier == 'quick' else 300):
+            # connect-retry time below, equal to (yabgp's default) and above the 30 s TCP connect time-out
+            wcfg = dict(tick=10.0, crt=(20, 30, 40)[j % 3], idle=20, hold=90, las=65001, ras=65002, **f)
             jobs.append(('c12md5', wcfg, seed * 1000003 + n))
             n += 1
     for fail in ([1], [2], [1, 2], [1, 3, 5], 'all', []):
@@ -552,6 +618,14 @@ def c01n_jobs(tier, seed):
                 jobs.append(('c01n', wcfg, state, code, sub, b''))
                 if sub in (0, 2):
                     jobs.append(('c01n', wcfg, state, code, sub, b'\x00\x04'))
+    # the Data field is free-form octets (for Cease / 2 and 4 a length octet and a text, RFC 8203 / 9003): text that is
+    # ASCII, UTF-8, ISO 8859-1, UTF-8 cut inside a character, binary, a wrong length octet, the longest possible field
+    datas = [b'\x05hello', b'\x05caf\xc3\xa9', b'\x04caf\xe9', b'\x03ab\xe2', b'\x02\xff\xfe', b'\xff', b'\x80\x80\x80', b'\x10short', b'\x00',
+             bytes(range(256)) * 15 + bytes(235)]
+    for state in ('OPENSENT', 'OPENCONFIRM', 'ESTABLISHED'):
+        for code, sub in ((6, 2), (6, 4), (6, 1), (6, 9), (2, 7), (3, 1), (1, 2), (4, 0), (5, 1)):
+            for xd in datas if (tier == 'thorough' or code == 6) else datas[2:5]:
+                jobs.append(('c01n', wcfg, state, code, sub, xd))
     return jobs
 
 
@@ -776,6 +850,9 @@ def run_jobs(args):
             elif job[0] == 'c12md5':
                 _, wcfg, sd = job
                 lines = c12md5_run(tid, wcfg, cfgline_fn(wcfg), sd)
+            elif job[0] == 'c02r':
+                _, wcfg, sd = job
+                lines = c02r_run(tid, wcfg, cfgline_fn(wcfg), sd)
             elif job[0] == 'c03j':
                 _, wcfg, sd = job
                 lines = c03j_run(tid, wcfg, cfgline_fn(wcfg), sd)
